@@ -603,8 +603,12 @@ fn gen_date(ch: &mut Choices, cfg: &Cfg, out: &mut String, with_year: bool) -> D
         if year.is_some() && ch.chance(75) {
             out.push(' ');
         }
-        let month = ch.pick(&MONTHS);
-        let day = gen_daynum(ch);
+        // the days other constructs are defined by (`+` ends on Dec 31, year ends, leap day)
+        let (month, day) = if ch.chance(10) {
+            ch.pick(&[(Month::December, 31u8), (Month::January, 1), (Month::February, 29), (Month::December, 25), (Month::February, 28)])
+        } else {
+            (ch.pick(&MONTHS), gen_daynum(ch))
+        };
         out.push_str(month_str(month));
         if ch.chance(85) {
             out.push(' ');
@@ -784,7 +788,7 @@ fn gen_comment_text(ch: &mut Choices, hostile: bool) -> String {
             .to_string();
     }
     // edge whitespace is part of a comment
-    ch.pick(&["c0", "c1", "c2", "by appointment", "a, b", "Z", "x", "c0", "c1", " lead", "trail ", " ", "é ü", "日本", "c0", "c2"]).to_string()
+    ch.pick(&["c0", "c1", "c2", "by appointment", "a, b", "Z", "x", "c0", "c1", " lead", "trail ", " ", "é ü", "日本", "c0", "c2", "12–13", "a\u{a0}b", "“q”", "5 − 3"]).to_string()
 }
 
 fn gen_rule(ch: &mut Choices, cfg: &Cfg, out: &mut String, operator: RuleOperator) -> GenRule {
